@@ -223,6 +223,8 @@ class Rig:
         if transport._closing or not self.connected:
             raise exc.TransportError("Transport is closing or has closed")
         if self.n_writes in self.ep.get("fail_writes", []) and not self.in_probe:
+            if self.ep.get("fail_write_kind") == "os":  # a failure the transport did not turn into its own error class
+                raise OSError(5, "injected write failure (I/O error)")
             raise exc.TransportError("injected write failure")
         for ev in self.ep.get("events", []):
             if ev.get("after_write") == self.n_writes and not self.in_probe:
@@ -768,6 +770,7 @@ def gen_faulty(rng) -> dict[str, Any]:
     kind = rng.choice(("fail_write", "disconnect_at", "disconnect_after_write", "disc_reconnect", "pause", "late_packets", "event_with_call", "caller_cancel"))
     if kind == "fail_write":
         ep["fail_writes"] = sorted({rng.randint(1, 5) for _ in range(rng.randint(1, 2))})
+        ep["fail_write_kind"] = rng.choice(("transport", "transport", "os"))
     elif kind == "disconnect_at":
         ep["events"] = [{"at": rng.choice((0.0, 0.002, 0.004, 0.02, 0.3, 0.5, 0.5 + EPS, 1.5, 4.0)), "do": rng.choice(("disconnect", "disconnect_err", "disconnect_serial"))}]
     elif kind == "disconnect_after_write":
